@@ -228,6 +228,7 @@ struct nng_aio {
 	bool         a_expiring;   // Expiration in progress
 	bool         a_use_expire; // Use expire instead of timeout
 	bool         a_abort;      // Task was aborted
+	bool         a_done;       // Operation completed (until the next one)
 	bool         a_init;       // Initialized this
 	bool         a_stopped;    // Debug - set when we finish stopped
 	nni_task     a_task;
